@@ -17,7 +17,7 @@ def run(args):
         ctx.obligations.append(ob)
     else:
         cases, metas = ctx.run_harness("c06", extra=[ctx.scratch], timeout=3400)
-        by = {k: [c for c in cases if c[0].startswith(f"c06 {k} ")] for k in ("const", "run", "construn", "cycle")}
+        by = {k: [c for c in cases if c[0].startswith(f"c06 {k} ")] for k in ("const", "run", "construn", "cycle", "frozen", "frozenset")}
         ctx.evaluations = len(cases)
         m_const = ctx.run_driver([c[0] for c in by["const"]])
         ctx.tie("model constEval = real checker on `const K = E` (verdict and error class, type, TypeCheckInfo.const_values)",
@@ -29,6 +29,7 @@ def run(args):
         crun_b = built(by["construn"])
         m_crun = ctx.run_driver([c[0] for c in crun_b])
         ctx.tie("model runEval = value printed for `const K: T = E` by a compiled program (Rust const expressions, concat! chains)", crun_b, m_crun)
+        ctx.tie("model contains (scan in literal order) = membership answered by compiled const sets", by["frozenset"], ctx.run_driver([c[0] for c in by["frozenset"]]))
         m_cyc = ctx.run_driver([c[0] for c in by["cycle"]])
         ctx.tie("model visit (in-progress stack) = real checker on const dependency graphs (ok / cycle path)", by["cycle"], m_cyc)
         hist = {"const_ok_value": 0, "const_ok_novalue": 0, "const_err": {}, "agree_value": 0, "agree_error": 0, "unbuildable_run": 0,
@@ -110,6 +111,15 @@ def run(args):
                 failures.append({"request": req, "real": real, "run_time": r, "why": "the const holds a different value than its initializer evaluated in a function"})
             else:
                 hist["const_vs_body_same"] += 1
+        # ORACLE 4: frozen (const) sets / lists answer like the same literal at run time (membership, length)
+        hist["frozen_agree"] = 0
+        for req, real in by["frozen"]:
+            ctx.nontrivial.add(req)
+            exp = req.split(" ")[3]
+            if real == exp:
+                hist["frozen_agree"] += 1
+            else:
+                failures.append({"request": req, "real": real, "why": "a const set / list answers membership or length differently from what its literal means at run time"})
         # ORACLE 3: cycles are reported (and nothing loops): ground truth by an independent DFS
         for req, real in by["cycle"]:
             g = {}
